@@ -19,7 +19,9 @@ Definition qd (m : Z) (e : N) : Q := Qmake m (match e with N0 => 1%positive | Np
 Record cell := mkcell { c_in : option size; c_box : box; c_plain : bool }.
 
 Inductive case :=
-  Case (rows0 cols0 : nat) (rows_first : bool) (gap vgap hgap : option Z) (cells : list cell) (container : option box).
+| Case (rows0 cols0 : nat) (rows_first : bool) (gap vgap hgap : option Z) (cells : list cell) (container : option box)
+| CGen (n : nat) (cuts : list nat) (impl : list (list nat)).
+    (* d2grid.GenLayout on n objects (numbered 0..n-1) with the given cut indices; the rows it returned *)
 
 Definition tol : Q := 1 # 1000000.
 
@@ -98,4 +100,8 @@ Definition check_case (c : case) : list N :=
       let ends := implb (plain && negb evenly) (rows_same_end_b tol R) in
       flag corr 1 ++ flag hyp_part 2 ++ flag hyp_in 3
       ++ flag sep 10 ++ flag inside 11 ++ flag exact 12 ++ flag cols 13 ++ flag ends 14
+  | CGen n cuts impl =>
+      (* 1: model rows differ; 15: the rows concatenated are not the objects in declaration order *)
+      flag (list_eqb (list_eqb Nat.eqb) (gen_layout (seq 0 n) cuts) impl) 1
+      ++ flag (list_eqb Nat.eqb (concat impl) (seq 0 n)) 15
   end.
